@@ -383,6 +383,29 @@ def gen_records(rng, anno, genome, n_records, mix=None, cluster=False, intronic_
                     stats['gen_fail'] += 1
         except Exception:  # pylint: disable=broad-except
             stats['gen_fail'] += 1
+    # two SNVs on adjacent bases inside a circRNA / upstream of a fusion breakpoint: candidates for merging into an
+    # MNV (--max-adjacent-as-mnv), which those graphs do on the variant list as it comes
+    for (tx, _rid), r in list(cir.items()) + [(k, v) for k, v in var.items() if v.type == 'Fusion']:
+        if rng.random() >= 0.5:
+            continue
+        try:
+            coords = maker.coords(tx)
+            if isinstance(r, circ.CircRNAModel):
+                frag = rng.choice(r.fragments)
+                lo, hi = int(frag.location.start), int(frag.location.end)
+            else:
+                lo, hi = min(coords), int(r.location.start)
+            cand = [i for i in range(1, len(coords) - 2)
+                    if lo <= coords[i] < hi - 1 and coords[i + 1] == coords[i] + 1]
+            if not cand:
+                continue
+            i = rng.choice(cand)
+            for j in (i, i + 1):
+                v = maker.small(rng, tx, tx_pos=j, kind='SNV')
+                var[(tx, v.id)] = v
+            stats['adjacent_snv_pairs'] = stats.get('adjacent_snv_pairs', 0) + 1
+        except Exception:  # pylint: disable=broad-except
+            stats['gen_fail'] += 1
     for tx in intronic_txs:
         try:
             r = maker.intronic_snv(rng, tx)
